@@ -19,6 +19,7 @@ type Env struct {
 	pkg      *types.Package
 	depth    int
 	visKey   string
+	loopPre  *State // loop invariants: the state in which the loop was entered (before(e))
 }
 
 type cxError struct{ msg string }
@@ -221,6 +222,10 @@ func (e *Env) ident(name string) Val {
 	// local variables that live in memory (captured by closures / address taken)
 	for c := e.fc; c != nil; c = c.parent {
 		if al, ok := c.named[name]; ok {
+			if cv, ok := e.g.constVal[al]; ok {
+				// a write-once variable: the same value in every state
+				return Val{t: cv.t, ty: al.Type().Underlying().(*types.Pointer).Elem(), tuple: cv.tuple}
+			}
 			if v, ok := c.vals[al]; ok {
 				T := al.Type().Underlying().(*types.Pointer).Elem()
 				saved := c.cur
@@ -833,6 +838,9 @@ func (e *Env) call(n *CNode) Val {
 			V, _ := e.resolveType(vs)
 			kd, kv := g.mapKeys(types.NewMap(K, V))
 			keys = []string{kd, kv}
+			// "unchanged for every object allocated before" only says something about a stored map reference if
+			// that reference is known to be older than the allocation mark
+			g.markAlloc(types.NewMap(K, V))
 		default:
 			if n.Args[0].Kind != "field" {
 				cxFail("preservedFields(T.f)")
@@ -857,17 +865,34 @@ func (e *Env) call(n *CNode) Val {
 		if !ok {
 			cxFail("deref of non-pointer")
 		}
+		if v.cell != nil {
+			// a write-once variable: its value in every state
+			if cv, ok := g.constVal[v.cell]; ok {
+				return Val{t: cv.t, ty: pt.Elem(), tuple: cv.tuple}
+			}
+		}
 		saved := e.fc.cur
 		e.fc.cur = e.state
 		t := e.fc.loadWhole(v.t, pt.Elem())
 		e.fc.cur = saved
 		return Val{t: t, ty: pt.Elem()}
+	case "before":
+		// before(e): e in the state in which the enclosing loop was entered (loop invariants only)
+		if e.loopPre == nil {
+			cxFail("before() is available in loop invariants only")
+		}
+		n2 := *e
+		n2.state = e.loopPre
+		return n2.expr(n.Args[0])
 	case "local":
 		// local(x): the current value of the local variable x that lives in memory (e.g. a parameter
 		// that is re-assigned and captured by a closure), as opposed to the entry value of parameter x
 		nm := n.Args[0].Name
 		for c := e.fc; c != nil; c = c.parent {
 			if al, ok := c.named[nm]; ok {
+				if cv, ok := g.constVal[al]; ok {
+					return Val{t: cv.t, ty: al.Type().Underlying().(*types.Pointer).Elem(), tuple: cv.tuple}
+				}
 				if v, ok := c.vals[al]; ok {
 					T := al.Type().Underlying().(*types.Pointer).Elem()
 					saved := c.cur
@@ -878,7 +903,16 @@ func (e *Env) call(n *CNode) Val {
 				}
 			}
 		}
-		cxFail("local(%s): no such memory-resident local", nm)
+		// not memory-resident: the variable of an enclosing function by its source name
+		for c := e.fc; c != nil; c = c.parent {
+			if v, ok := c.params[nm]; ok && c.parent == nil {
+				return v
+			}
+			if v, ok := c.debugNames[nm]; ok && v.tuple == nil {
+				return v
+			}
+		}
+		cxFail("local(%s): no such local", nm)
 	case "msgBeginTs", "msgEndTs", "msgPosition", "msgType", "msgHashKeys", "msgGet":
 		// accessors of a message interface value (msgmodel.go); meaningful for msgKnown(m) messages
 		v := e.expr(n.Args[0])
